@@ -480,6 +480,9 @@ class StructureVisitor(ASTTemplate):
         """Resolve a UnaryOp to its dataset structure."""
         ds = self._get_dataset_structure(node.operand)
         if ds is not None and node.op == tokens.ISNULL and len(ds.get_measures_names()) == 1:
+            # A Boolean measure keeps its name (its type does not change)
+            if ds.components[ds.get_measures_names()[0]].data_type == Boolean:
+                return ds
             return self._build_boolean_result_structure(ds)
         return ds
 
